@@ -8,6 +8,7 @@ import shutil
 import signal
 import subprocess
 import sys
+import threading
 import time
 
 VERIF = os.path.dirname(os.path.dirname(os.path.abspath(__file__)))
@@ -56,6 +57,7 @@ class Work:
         self.dir = os.path.join(WORKROOT, '%s-%d' % (name, os.getpid()))
         self.keep = keep
         self.n = 0
+        self._lock = threading.Lock()
 
     def __enter__(self):
         shutil.rmtree(self.dir, ignore_errors=True)
@@ -67,9 +69,10 @@ class Work:
             shutil.rmtree(self.dir, ignore_errors=True)
 
     def sub(self, prefix='d'):
-        self.n += 1
-        p = os.path.join(self.dir, '%s%d' % (prefix, self.n))
-        return p
+        with self._lock:            # called from worker threads
+            self.n += 1
+            n = self.n
+        return os.path.join(self.dir, '%s%d' % (prefix, n))
 
     def mk(self, prefix='d'):
         p = self.sub(prefix)
@@ -161,12 +164,20 @@ def run_parser(datadir, cb, dump=None, coin=None, start=None, end=None, verify=F
             resource.setrlimit(resource.RLIMIT_NOFILE, (nofile, nofile))
         resource.setrlimit(resource.RLIMIT_CORE, (0, 0))
     t0 = time.time()
-    timed_out = False
-    try:
-        r = subprocess.run(args, env=e, stdout=subprocess.PIPE, stderr=subprocess.PIPE, preexec_fn=pre, timeout=timeout)
-        rc, out, err = r.returncode, r.stdout, r.stderr
-    except subprocess.TimeoutExpired as ex:
-        rc, out, err, timed_out = -999, ex.stdout or b'', ex.stderr or b'', True
+    for attempt in (0, 1):
+        timed_out = False
+        try:
+            r = subprocess.run(args, env=e, stdout=subprocess.PIPE, stderr=subprocess.PIPE, preexec_fn=pre, timeout=timeout)
+            rc, out, err = r.returncode, r.stdout, r.stderr
+            break
+        except subprocess.TimeoutExpired as ex:
+            # a run that does not finish is reported only if it does not finish twice (a stalled box is not a verdict)
+            rc, out, err, timed_out = -999, ex.stdout or b'', ex.stderr or b'', True
+            if trace and attempt == 0:
+                with open(trace) as f:
+                    first = f.readline()
+                with open(trace, 'w') as f:
+                    f.write(first)
     dt = time.time() - t0
     files = {}
     listing = []
